@@ -505,8 +505,9 @@ def many_keys_lock_cleanup(run):
     try:
         for kind in ('redis', 'file', 'dict'):
             for mode in ('locksOnly', 'failedOnly'):
-                cfg = Cfg(kind, os.path.join(scratch, '%s-%s' % (kind, mode)))
-                os.makedirs(os.path.join(scratch, '%s-%s' % (kind, mode)), exist_ok=True)
+                # the store lives below a directory whose name is full of characters that mean something to glob / fnmatch / regular expressions
+                cfg = Cfg(kind, os.path.join(scratch, 'exp[1]*run?{a,b}+(x)', '%s-%s' % (kind, mode)))
+                os.makedirs(os.path.join(scratch, 'exp[1]*run?{a,b}+(x)', '%s-%s' % (kind, mode)), exist_ok=True)
                 store = cfg.open()
                 names = [hashlib.sha1(b'many-%d' % j).hexdigest().encode() for j in range(45)]
                 for j, nm in enumerate(names[:30]):
